@@ -14,16 +14,16 @@ struct TreeGen {
     std::size_t max_keys;
     std::size_t value_max;
 
-    TreeGen(Rng& rr, KeyGen& k, std::size_t mk = 300, std::size_t vm = 40) : r(rr), kg(k), max_keys(mk), value_max(vm) {}
+    TreeGen(Rng& rr, KeyGen& k, std::size_t mk = 600, std::size_t vm = 40) : r(rr), kg(k), max_keys(mk), value_max(vm) {}
 
     static const char* family_name(int f) {
-        static const char* n[] = {"random", "dense", "multilayer", "linkonly", "tiny", "mixed-after-delete", "ff-heavy"};
-        return n[f % 7];
+        static const char* n[] = {"random", "dense", "multilayer", "linkonly", "tiny", "mixed-after-delete", "ff-heavy", "prefix-dense"};
+        return n[f % 8];
     }
 
     std::vector<std::string> keys_for(int family) {
         std::vector<std::string> ks;
-        switch (family % 7) {
+        switch (family % 8) {
             case 0: {
                 std::size_t n = r.below(std::min<std::size_t>(max_keys, 120) + 1);
                 for (std::size_t i = 0; i < n; ++i) { ks.push_back(kg.next(ks)); }
@@ -72,6 +72,24 @@ struct TreeGen {
                 for (std::size_t i = 0; i < n; ++i) { ks.push_back(kg.next(ks)); }
                 break;
             }
+            case 7: {
+                // many variable-length keys over a tiny alphabet inside ONE layer: keys that are proper prefixes of
+                // each other become separators of borders and interiors (several interior levels when n is large)
+                static const char alpha[][4] = {{'A', 'B', '\0', '\xff'}, {'\0', '\x01', '\x7f', '\x80'}, {'k', 'E', 'A', 'z'}};
+                const char* al = alpha[r.below(3)];
+                std::size_t asz = r.range(2, 4);
+                std::size_t n = r.chance(1, 2) ? r.range(130, std::min<std::size_t>(max_keys, 600)) : r.range(20, 130);
+                std::string lp = r.chance(1, 3) ? std::string(8 * r.range(1, 2), static_cast<char>(kg.abyte())) : std::string();
+                for (std::size_t i = 0; i < n * 2 && ks.size() < n; ++i) {
+                    std::string k = lp;
+                    std::size_t l = r.range(1, 8);
+                    for (std::size_t j = 0; j < l; ++j) { k.push_back(al[r.below(asz)]); }
+                    ks.push_back(k);
+                }
+                std::sort(ks.begin(), ks.end());
+                ks.erase(std::unique(ks.begin(), ks.end()), ks.end());
+                break;
+            }
             default: {
                 // keys made of 0xff slices with tails (right edge of every layer)
                 std::size_t n = r.range(1, 30);
@@ -106,7 +124,7 @@ struct TreeGen {
             status s = yput(tok, storage, k, v, false, aligns[r.below(5)]);
             if (s == status::OK) { model[k] = v; }
         }
-        if (family % 7 == 5 && !model.empty()) {
+        if (family % 8 == 5 && !model.empty()) {
             // remove a contiguous run and a random subset: unlinks borders, collapses interiors
             std::vector<std::string> all;
             for (auto& kv : model) { all.push_back(kv.first); }
